@@ -1595,11 +1595,13 @@ def parse_as_ast(
         # arguments and applies call-site rewrites in place) works on a copy, so the same
         # lambda object can be given to several streams.
         src_ast = copy.deepcopy(lambda_unwrap(ast_source))
-        # A call node assembled by hand may lack the `keywords` field (python 3.12 leaves it
-        # absent): such a call has no keywords.
+        # A call node assembled by hand may lack the `keywords` or the `args` field (python 3.12
+        # leaves them absent): such a call has no keywords / no arguments.
         for n in ast.walk(src_ast):
             if isinstance(n, ast.Call) and not hasattr(n, "keywords"):
                 n.keywords = []
+            if isinstance(n, ast.Call) and not hasattr(n, "args"):
+                n.args = []
         return src_ast
 
 
